@@ -246,6 +246,10 @@ def _parse_list_rule(rule):
         # Handle bare strings
         if isinstance(inner_rule, str):
             inner_rule = [inner_rule]
+        elif not isinstance(inner_rule, (list, tuple)):
+            # Not a list of checks; fail closed
+            LOG.error('Failed to understand rule %s', inner_rule)
+            inner_rule = ['!']
 
         # Parse the inner rules into Check objects
         and_list = [_parse_check(r) for r in inner_rule]
@@ -350,4 +354,10 @@ def parse_rule(rule):
     # If the rule is a string, it's in the policy language
     if isinstance(rule, str):
         return _parse_text_rule(rule)
-    return _parse_list_rule(rule)
+    if rule is None or isinstance(rule, (list, tuple)):
+        return _parse_list_rule(rule)
+
+    # Anything else (booleans, numbers, mappings) is not a rule
+    LOG.error('Failed to understand rule %s', rule)
+    # Fail closed
+    return _checks.FalseCheck()
